@@ -197,7 +197,13 @@ func Search(o SearchOpts) (int, int64) {
 				return e
 			}
 			if out.Class != OK {
-				ev.Internal("replay of path step %d (%s) was refused: %v", i, r.Label, out.Err)
+				// The same requests were accepted when this state was found:
+				// the harness is deterministic, so the code under test answers
+				// one request sequence in two ways (state shared between witness
+				// instances, e.g. a package-level buffer or cache).
+				o.Run.Report("same-requests-answered-differently", fmt.Sprintf("the request sequence that reached state %s was replayed on a fresh witness and step %d (%s) was answered %s (%v) instead of accepted", want, i, r.Label, out.Class, out.Err), nil)
+				e.Diverged = true
+				return e
 			}
 		}
 		stored := e.Stored(id)
@@ -206,7 +212,8 @@ func Search(o SearchOpts) (int, int64) {
 		}
 		st, ok := StateOf(o.Gen, stored)
 		if !ok || st.Key() != want {
-			ev.Internal("replay of path reached %s, want %s", st.Key(), want)
+			o.Run.Report("same-requests-answered-differently", fmt.Sprintf("the request sequence that reached state %s was replayed on a fresh witness and reached %s", want, st.Key()), nil)
+			e.Diverged = true
 		}
 		return e
 	}
@@ -250,6 +257,10 @@ func Search(o SearchOpts) (int, int64) {
 						path = j.rec.paths[j.rep]
 					}
 					e := build(path, j.rec.key)
+					if e.Diverged {
+						e.Close()
+						continue
+					}
 					if e.Blocked {
 						if !storeBlocked.Swap(true) {
 							o.Run.Report("store-blocked after=replay", fmt.Sprintf("replaying the accepted path to state %s left the store blocked", j.rec.key), nil)
@@ -350,6 +361,10 @@ func Search(o SearchOpts) (int, int64) {
 							}
 							e.Close()
 							e = build(path, j.rec.key)
+							if e.Diverged || e.Blocked {
+								vec = nil
+								break
+							}
 							before = e.Snap()
 						}
 					}
